@@ -144,7 +144,7 @@ Plan generate(Rng &rng, const Opts &opts, uint64_t)
         ++sid;
         if (ms.empty() || r < 22) {
             if (rng.chance(1, 6)) {
-                p.steps.push_back(mk(t, "BUILD", {sid, long(rng.below(1000))}));
+                p.steps.push_back(mk(t, "BUILD", {sid, long(rng.below(1000)), long(rng.below(3) == 0)}));
                 docOf[sid] = -1;
             } else {
                 long d = docs[rng.below(docs.size())];
@@ -377,7 +377,33 @@ void execute(const Plan &plan, Ctx &ctx)
             Rng mr(mixSeed(uint64_t(s.arg(1)), "purity-build", 0));
             GenOpts go;
             go.idMode = 4;
-            auto model = genModel(mr, go);
+            ModelPtr model;
+            if (s.arg(2) == 1) {
+                // several variables that each have two resets of the same order: the validator reports one
+                // issue per variable, and nothing but the model should decide in which order
+                model = Model::create("reset_orders");
+                auto c = Component::create("c");
+                model->addComponent(c);
+                long nv = 2 + long(mr.below(3));
+                for (long i = 0; i < nv; ++i) {
+                    auto v = Variable::create("v" + str(i));
+                    v->setUnits("second");
+                    c->addVariable(v);
+                }
+                for (long i = 0; i < nv; ++i) {
+                    for (int k = 0; k < 2; ++k) {
+                        auto r = Reset::create(7);
+                        r->setVariable(c->variable(size_t(i)));
+                        r->setTestVariable(c->variable(size_t((i + 1) % nv)));
+                        r->setTestValue("<math xmlns=\"http://www.w3.org/1998/Math/MathML\" xmlns:cellml=\"http://www.cellml.org/cellml/2.0#\"><cn cellml:units=\"second\">1</cn></math>");
+                        r->setResetValue("<math xmlns=\"http://www.w3.org/1998/Math/MathML\" xmlns:cellml=\"http://www.cellml.org/cellml/2.0#\"><cn cellml:units=\"second\">2</cn></math>");
+                        c->addReset(r);
+                    }
+                }
+                ctx.count("purity_build_duplicate_reset_orders");
+            } else {
+                model = genModel(mr, go);
+            }
             w.models[sid] = model;
             w.modelDoc[sid] = -1;
             w.held.push_back({sid, "model", "BUILD", dumpModel(model), model, nullptr});
